@@ -28,7 +28,7 @@
      End        the terminal plan write is finalStates of the IN-MEMORY statuses; Wait returns after
                 writeEverything: the released plan equals mem on every object.
 
-   Known, unfixed defects of the repair (R2, R3, ...) are in the transcription Fix.v as they are in the code; what
+   Known, unfixed defects of the repair (R2, R3, R5, R6) are in the transcription Fix.v as they are in the code; what
    they leave behind is seen by the release guard [quiet], selected by the deviation flags. *)
 From Coercion.Base Require Import Plan.
 From Coercion.Engine Require Import Shape Event Action ChecksRun Seq Block Final PlanSM Auto Accept.
@@ -161,8 +161,16 @@ Definition seq_resumable (s : F.seq) : bool :=
   forallb (fun a => status_eqb (F.ac_st a) NotStarted) (skipn (lead_completed (F.sq_acts s)) (F.sq_acts s))
   && (lead_completed (F.sq_acts s) <? length (F.sq_acts s)).
 
-(* ------------------------------------------------------------------ the in-memory image *)
-Definition mget (m : dimg) (o : obj) : cell := iget m o.
+(* ------------------------------------------------------------------ the in-memory image
+   A base (the repaired image, as a function of the object) and an overlay of the values written since. *)
+Fixpoint ifind (im : dimg) (o : obj) : option cell :=
+  match im with
+  | [] => None
+  | (o', c) :: im' => if obj_eqb o' o then Some c else ifind im' o
+  end.
+Definition memory := obj -> cell.
+Definition over (ov : dimg) (base : memory) : memory :=
+  fun o => match ifind ov o with Some c => c | None => base o end.
 
 Definition seq_objs_of (b q : nat) (s : F.seq) : list (obj * cell) :=
   (OSeq b q, st_cell (F.sq_st s))
@@ -171,11 +179,10 @@ Definition seq_objs_of (b q : nat) (s : F.seq) : list (obj * cell) :=
 (* memory right after the repair, while fixBlock is about to run the resumed sequences: everything as fix_plan
    leaves it (plan and block statuses are provisional until the resumed sequences are over), the resumed
    sequences as fixSeq left them *)
-Definition mem0 (sh : shape) (p : F.pln) : dimg :=
-  let fp := fixed [] p in
+Definition base0 (p : F.pln) : memory := pl_cell (F.fp_pln (fixed [] p)).
+Definition mem0 (p : F.pln) : dimg :=
   flat_map (fun bq => match resumed_seq p (fst bq) (snd bq) with
-                      | Some s => seq_objs_of (fst bq) (snd bq) s | None => [] end) (F.fp_resumed fp)
-  ++ map (fun o => (o, pl_cell (F.fp_pln fp) o)) (all_objs sh).
+                      | Some s => seq_objs_of (fst bq) (snd bq) s | None => [] end) (F.fp_resumed (fixed [] p)).
 
 (* the repair is finished: plan and block statuses as fixBlock / fixPlan compute them from the outcomes *)
 Definition finish_mem (sh : shape) (p : F.pln) (fl : list nat) (m : dimg) : dimg :=
@@ -191,14 +198,14 @@ Definition finish_mem (sh : shape) (p : F.pln) (fl : list nat) (m : dimg) : dimg
          Running, so fixChecks never fires) and the group is not necessarily run again;
      R3  a block that was Running with its pre, continuous or post group durably Failed, its sequences and their
          actions: fixBlock returns before it repairs the sequences;
-     R4  a sequence or sequence action inside a block that is already finished in I (reachable by a second crash
+     R5  a sequence or sequence action inside a block that is already finished in I (reachable by a second crash
          only: the repair of a sequence is not written before its block's terminal write): fixBlock does not look
          into a block that is not Running;
-     R5  a block, its sequences and their actions while the PLAN's continuous group is durably Failed: fixPlan
+     R6  a block, its sequences and their actions while the PLAN's continuous group is durably Failed: fixPlan
          marks the plan Failed, Recovery goes to End and the block that was executing is abandoned. *)
-Record devs := { dev_R2 : bool; dev_R3 : bool; dev_R4 : bool; dev_R5 : bool }.
-Definition dev_none : devs := {| dev_R2 := false; dev_R3 := false; dev_R4 := false; dev_R5 := false |}.
-Definition dev_all : devs := {| dev_R2 := true; dev_R3 := true; dev_R4 := true; dev_R5 := true |}.
+Record devs := { dev_R2 : bool; dev_R3 : bool; dev_R5 : bool; dev_R6 : bool }.
+Definition dev_none : devs := {| dev_R2 := false; dev_R3 := false; dev_R5 := false; dev_R6 := false |}.
+Definition dev_all : devs := {| dev_R2 := true; dev_R3 := true; dev_R5 := true; dev_R6 := true |}.
 
 Definition is_check_action (o : obj) : bool := match o with OAct (AChk _ _ _) => true | _ => false end.
 Definition is_block (o : obj) : bool := match o with OBlock _ => true | _ => false end.
@@ -222,15 +229,15 @@ Definition excused (d : devs) (sh : shape) (I : dimg) (o : obj) : bool :=
   | Some b =>
       (dev_R3 d && status_eqb (ist I (OBlock b)) Running
        && (group_failed sh I (SBlock b) GPre || group_failed sh I (SBlock b) GCont || group_failed sh I (SBlock b) GPost))
-      || (dev_R4 d && is_terminal (ist I (OBlock b)) && negb (is_block o))
-      || (dev_R5 d && group_failed sh I SPlan GCont)
+      || (dev_R5 d && is_terminal (ist I (OBlock b)) && negb (is_block o))
+      || (dev_R6 d && group_failed sh I SPlan GCont)
   | None => false
   end.
 
-Definition mst (m : dimg) (o : obj) : status := c_st (iget m o).
+Definition mst (m : obj -> cell) (o : obj) : status := c_st (m o).
 
 (* nothing is left Running in memory, except what the flags excuse *)
-Definition quiet (d : devs) (sh : shape) (I m : dimg) : bool :=
+Definition quiet (d : devs) (sh : shape) (I : dimg) (m : obj -> cell) : bool :=
   forallb (fun o => negb (status_eqb (mst m o) Running) || excused d sh I o) (all_objs sh).
 
 (* ------------------------------------------------------------------ state *)
@@ -241,28 +248,34 @@ Inductive rphase :=
 
 Record rst := {
   r_s : st;                (* the engine automaton's state (durable image, phases, sub-automata) *)
-  r_mem : dimg;            (* the in-memory image *)
+  r_base : obj -> cell;    (* the in-memory image: the repaired image ... *)
+  r_mem : dimg;            (* ... overlaid with what was written since *)
   r_ph : rphase;
   r_I : dimg;              (* the crash image (constant) *)
   r_pl : F.pln;            (* ... as Fix.v sees it *)
   r_fails : list nat }.    (* the actions that failed in the sequences fixBlock executed *)
 
+Definition mget (r : rst) : memory := over (r_mem r) (r_base r).
+
+Definition finished_mem (sh : shape) (r : rst) : memory :=
+  over (finish_mem sh (r_pl r) (r_fails r) (r_mem r)) (r_base r).
+
 Definition with_s (r : rst) (s : st) : rst :=
-  {| r_s := s; r_mem := r_mem r; r_ph := r_ph r; r_I := r_I r; r_pl := r_pl r; r_fails := r_fails r |}.
+  {| r_s := s; r_base := r_base r; r_mem := r_mem r; r_ph := r_ph r; r_I := r_I r; r_pl := r_pl r; r_fails := r_fails r |}.
 Definition with_mem (r : rst) (m : dimg) : rst :=
-  {| r_s := r_s r; r_mem := m; r_ph := r_ph r; r_I := r_I r; r_pl := r_pl r; r_fails := r_fails r |}.
+  {| r_s := r_s r; r_base := r_base r; r_mem := m; r_ph := r_ph r; r_I := r_I r; r_pl := r_pl r; r_fails := r_fails r |}.
 
 (* ------------------------------------------------------------------ need: initial group states from mem *)
 Definition skipped (v : bool) : gst := GIdle 1 (Some v).      (* one closed pseudo-run with verdict v *)
 
-Definition plan_gtab (sh : shape) (m : dimg) : gtab :=
+Definition plan_gtab (sh : shape) (m : memory) : gtab :=
   let done g := is_terminal (mst m (OChecks SPlan g)) in
   let ok g := status_eqb (mst m (OChecks SPlan g)) Completed in
   {| t_bypass := g0; t_pre := g0; t_cont := g0;
      t_post := if done GPost then skipped (ok GPost) else g0;
      t_deferred := if done GDeferred then skipped (ok GDeferred) else g0 |}.
 
-Definition block_gtab (bs : bshape) (m : dimg) (b : nat) : gtab :=
+Definition block_gtab (bs : bshape) (m : memory) (b : nat) : gtab :=
   let stt g := mst m (OChecks (SBlock b) g) in
   let pre_done := present (g_pre (bs_groups bs)) && status_eqb (stt GPre) Completed in
   {| t_bypass := if status_eqb (stt GBypass) Failed then skipped false else g0;
@@ -271,35 +284,35 @@ Definition block_gtab (bs : bshape) (m : dimg) (b : nat) : gtab :=
      t_post := if status_eqb (stt GPost) Completed then skipped true else g0;
      t_deferred := if status_eqb (stt GDeferred) Completed then skipped true else g0 |}.
 
-Definition seq_init (m : dimg) (b q : nat) : sst :=
+Definition seq_init (m : memory) (b q : nat) : sst :=
   match mst m (OSeq b q) with
   | Completed => SDone true
   | Failed => SDone false
   | _ => SIdle
   end.
 
-Definition rb_init (bs : bshape) (m : dimg) (b : nat) : bst :=
+Definition rb_init (bs : bshape) (m : memory) (b : nat) : bst :=
   {| b_ph := BEnter; b_g := block_gtab bs m b; b_thr := TNone; b_cause := false;
      b_seqs := map (seq_init m b) (seq 0 (length (bs_seqs bs))) |}.
 
-(* ExecuteBlock: pop the blocks that are finished in memory, enter the first one that is not *)
-Fixpoint r_enter_from (sh : shape) (m : dimg) (s : st) (cb fuel : nat) : st :=
-  match block_of sh cb with
-  | None => with_block s cb b_none
-  | Some bs =>
-      if is_terminal (mst m (OBlock cb))
-      then match fuel with 0 => with_block s cb b_none | S f => r_enter_from sh m s (S cb) f end
+(* ExecuteBlock: pop the blocks that are finished in memory, enter the first one that is not
+   (bl = the blocks from index cb on) *)
+Fixpoint r_enter_list (m : memory) (s : st) (bl : list bshape) (cb : nat) : st :=
+  match bl with
+  | [] => with_block s cb b_none
+  | bs :: bl' =>
+      if is_terminal (mst m (OBlock cb)) then r_enter_list m s bl' (S cb)
       else with_block s cb (rb_init bs m cb)
   end.
-Definition r_enter (sh : shape) (m : dimg) (s : st) (cb : nat) : st :=
-  r_enter_from sh m s cb (length (sh_blocks sh)).
+Definition r_enter (sh : shape) (m : memory) (s : st) (cb : nat) : st :=
+  r_enter_list m s (skipn cb (sh_blocks sh)) cb.
 
 (* ------------------------------------------------------------------ epsilon-moves *)
 (* the engine's plan/block phase moves; when they enter a new block, it is initialised from mem instead *)
 Definition entered (s s' : st) : bool :=
   pphase_eqb (s_ph s') PBlocks && (negb (pphase_eqb (s_ph s) PBlocks) || negb (Nat.eqb (s_cb s) (s_cb s'))).
 
-Definition rp_eps (sh : shape) (m : dimg) (s : st) : option st :=
+Definition rp_eps (sh : shape) (m : memory) (s : st) : option st :=
   match p_eps sh s with
   | Some s' => Some (if entered s s' then r_enter sh m s' (s_cb s') else s')
   | None => None
@@ -320,12 +333,12 @@ Definition plan_phase_of (t : status) : pphase :=
 
 (* Recovery's switch, after the repair is finished *)
 Definition take_entry (sh : shape) (r : rst) : rst :=
-  let m := finish_mem sh (r_pl r) (r_fails r) (r_mem r) in
+  let m := finished_mem sh r in
   let s := r_s r in
   let s1 := {| s_img := s_img s; s_reason := s_reason s; s_ph := plan_phase_of (mst m OPlan);
                s_g := plan_gtab sh m; s_thr := TNone; s_cb := 0; s_b := b_none;
                s_late := s_late s; s_fin := None |} in
-  {| r_s := s1; r_mem := m; r_ph := RRun; r_I := r_I r; r_pl := r_pl r; r_fails := r_fails r |}.
+  {| r_s := s1; r_base := r_base r; r_mem := finish_mem sh (r_pl r) (r_fails r) (r_mem r); r_ph := RRun; r_I := r_I r; r_pl := r_pl r; r_fails := r_fails r |}.
 
 Definition start_recover (sh : shape) (r : rst) (todo : list (nat * list nat)) : rst :=
   match todo with
@@ -334,7 +347,7 @@ Definition start_recover (sh : shape) (r : rst) (todo : list (nat * list nat)) :
       let s := r_s r in
       let s1 := {| s_img := s_img s; s_reason := s_reason s; s_ph := PBlocks; s_g := gtab0; s_thr := TNone;
                    s_cb := b; s_b := rec_block sh b qs; s_late := s_late s; s_fin := None |} in
-      {| r_s := s1; r_mem := r_mem r; r_ph := RRecover todo; r_I := r_I r; r_pl := r_pl r; r_fails := r_fails r |}
+      {| r_s := s1; r_base := r_base r; r_mem := r_mem r; r_ph := RRecover todo; r_I := r_I r; r_pl := r_pl r; r_fails := r_fails r |}
   end.
 
 (* the failing action reported to the oracle for a resumed sequence that ended Failed: the first one it ran *)
@@ -350,11 +363,11 @@ Definition reps (sh : shape) (r : rst) : option rst :=
   | RRecover ((b, qs) :: todo) =>
       (* g.Wait: every resumed sequence of this block is terminal; the next block, or the entry point *)
       if forallb s_done (b_seqs (s_b (r_s r)))
-      then let r1 := {| r_s := r_s r; r_mem := r_mem r; r_ph := r_ph r; r_I := r_I r; r_pl := r_pl r;
+      then let r1 := {| r_s := r_s r; r_base := r_base r; r_mem := r_mem r; r_ph := r_ph r; r_I := r_I r; r_pl := r_pl r;
                         r_fails := failed_ids sh (r_pl r) b qs (b_seqs (s_b (r_s r))) ++ r_fails r |} in
            Some (start_recover sh r1 todo)
       else None
-  | RRun => option_map (with_s r) (rp_eps sh (r_mem r) (r_s r))
+  | RRun => option_map (with_s r) (rp_eps sh (mget r) (r_s r))
   end.
 
 (* ------------------------------------------------------------------ handlers *)
@@ -375,7 +388,7 @@ Definition r_launch (r : rst) (b q : nat) : option rst :=
 (* the terminal plan write: finalStates of the in-memory statuses *)
 Definition r_plan_final (sh : shape) (r : rst) (stt : status) (rs : reason) : option rst :=
   let s := r_s r in
-  let f := final sh (mst (r_mem r)) in
+  let f := final sh (mst (mget r)) in
   if pphase_eqb (s_ph s) PEnd && is_terminal stt && negb (is_terminal (ist (s_img s) OPlan))
      && status_eqb stt (fst f) && reason_eqb rs (snd f)
   then Some (with_s r (with_reason s rs)) else None.
@@ -384,7 +397,7 @@ Definition wcell (stt : status) (n : nat) (lastok : bool) : cell := {| c_st := s
 
 (* a handled write becomes the durable AND the in-memory value of its object *)
 Definition commit (r : rst) (o : obj) (stt : status) (n : nat) (lastok : bool) : rst :=
-  {| r_s := put (r_s r) o stt n lastok; r_mem := iset (r_mem r) o (wcell stt n lastok);
+  {| r_s := put (r_s r) o stt n lastok; r_base := r_base r; r_mem := iset (r_mem r) o (wcell stt n lastok);
      r_ph := r_ph r; r_I := r_I r; r_pl := r_pl r; r_fails := r_fails r |}.
 
 Definition in_plan_end (r : rst) : bool := pphase_eqb (s_ph (r_s r)) PEnd.
@@ -409,7 +422,7 @@ Definition r_write (sh : shape) (r : rst) (o : obj) (stt : status) (n : nat) (la
   end.
 
 Definition all_flushed (sh : shape) (r : rst) : bool :=
-  forallb (fun o => cell_eqb (iget (s_img (r_s r)) o) (mget (r_mem r) o)) (all_objs sh).
+  forallb (fun o => cell_eqb (iget (s_img (r_s r)) o) (mget r o)) (all_objs sh).
 
 (* Wait returns: End has written everything, nothing (the flags excepted) is Running *)
 Definition r_release (d : devs) (sh : shape) (r : rst) (fin : image) : option rst :=
@@ -419,7 +432,7 @@ Definition r_release (d : devs) (sh : shape) (r : rst) (fin : image) : option rs
       if negb (released (r_s r)) && image_agrees (all_objs sh) (s_img (r_s r)) (s_reason (r_s r)) fin
       then Some (with_s r (with_fin (with_ph (r_s r) PReleased) (Some fin))) else None
   | RRun =>
-      if all_flushed sh r && quiet d sh (r_I r) (r_mem r)
+      if all_flushed sh r && quiet d sh (r_I r) (mget r)
       then option_map (with_s r) (h_release sh (r_s r) fin) else None
   | RRecover _ => None
   end.
@@ -452,7 +465,7 @@ Definition flush (sh : shape) (r : rst) (e : event) : option rst :=
   | RIdle, _ => None
   | _, EvWrite OPlan _ _ _ _ => None
   | _, EvWrite o stt n lastok _ =>
-      if negb (released (r_s r)) && obj_in_shape sh o && cell_eqb (mget (r_mem r) o) (wcell stt n lastok)
+      if negb (released (r_s r)) && obj_in_shape sh o && cell_eqb (mget r o) (wcell stt n lastok)
       then Some (with_s r (put (r_s r) o stt n lastok)) else None
   | _, _ => None
   end.
@@ -486,9 +499,9 @@ Definition rinit (sh : shape) (im : dimg) (rs : reason) : option rst :=
   let s0 := {| s_img := im; s_reason := rs; s_ph := PStart; s_g := gtab0; s_thr := TNone; s_cb := 0; s_b := b_none;
                s_late := []; s_fin := None |} in
   if negb (status_eqb (ist im OPlan) Running)
-  then Some {| r_s := s0; r_mem := im; r_ph := RIdle; r_I := im; r_pl := p; r_fails := [] |}
+  then Some {| r_s := s0; r_base := iget im; r_mem := []; r_ph := RIdle; r_I := im; r_pl := p; r_fails := [] |}
   else if negb (resumable_ok p) then None
-  else let r0 := {| r_s := s0; r_mem := mem0 sh p; r_ph := RRun; r_I := im; r_pl := p; r_fails := [] |} in
+  else let r0 := {| r_s := s0; r_base := base0 p; r_mem := mem0 p; r_ph := RRun; r_I := im; r_pl := p; r_fails := [] |} in
        Some (start_recover sh r0 (group_by_block (F.fp_resumed (fixed [] p)))).
 
 Definition rreleased (r : rst) : bool := released (r_s r).
